@@ -300,6 +300,25 @@ def family_gates_metafail(idem):
     return out
 
 
+def family_sibling_syn():
+    """the bounced message of partition 0 is held in the retry handler while partition 1 on the same broker
+    starts up (its syn reaches the shared broker worker) and a fresh partition-0 message arrives: the fresh
+    message must be bounced behind the retried one, not produced ahead of it"""
+    out = []
+    for rmax in (1, 3):
+        for flush in (dict(), dict(flushMsgs=2, flushFreqMs=20)):
+            cfg = dict(retryMax=rmax, leaders=[1, 1], nbrokers=1, **flush)
+            gates = [{"name": "rh_hold", "point": "rh.loop", "flags": "", "retries": -1, "part": -1, "hwm": -1, "minArg": 1}]
+            pl = {"1": {"part": {"0": "retry"}}}
+            steps = submits([(1, 0)]) + [{"op": "wait_gate", "name": "rh_hold"}, {"op": "submit", "id": 2, "part": 1},
+                                         {"op": "wait_outcomes", "n": 1, "ms": 1500}, {"op": "submit", "id": 3, "part": 0},
+                                         {"op": "sleep", "ms": 40}, {"op": "release_gate", "name": "rh_hold"},
+                                         {"op": "wait_outcomes", "n": 3, "ms": 3000}]
+            steps += submits([(4, 0), (5, 1)]) + [{"op": "wait_outcomes", "n": 5, "ms": 3000}, {"op": "close"}]
+            out.append(sc("sibling-syn-r%d-%s" % (rmax, "".join(sorted(flush)) or "imm"), "gates", cfg, steps, pl, gates))
+    return out
+
+
 def family_idem_clean():
     """idempotent scenarios with a connection-level fault or an epoch bump in which the pinned tree behaves
     correctly (one batch in flight, nothing else sequenced): violations here are NOT covered by the
